@@ -309,6 +309,25 @@ Fixpoint copy_fields (R : grec) (l : fieldmap) (m : copymap) : M (fieldmap * cop
     r <- g_copy R x m ;; rs <- copy_fields R xs (snd r) ;; ret ((k, (sp, fst r)) :: fst rs, snd rs)
   end.
 
+(* the children of a type, copied (the second half of fn inner_copy) *)
+Definition copy_ty (R : grec) (t : tyh) (m : copymap) : M (tyh * copymap) :=
+  match t with
+  | HInvalid | HUnknown | HTy | HVoid | HNil | HInt | HFloat | HBool | HStr => ret (t, m)
+  | HTuple tys => r <- copy_list R tys m ;; ret (HTuple (fst r), snd r)
+  | HList x => r <- g_copy R x m ;; ret (HList (fst r), snd r)
+  | HFn args r p =>
+    ra <- copy_list R args m ;; rr <- g_copy R r (snd ra) ;; ret (HFn (fst ra) (fst rr) p, snd rr)
+  | HExtBlob name sp fields args ns =>
+    rf <- copy_fields R fields m ;; ra <- copy_list R args (snd rf) ;;
+    ret (HExtBlob name sp (fst rf) (fst ra) ns, snd ra)
+  | HBlob name sp fields args =>
+    rf <- copy_fields R fields m ;; ra <- copy_list R args (snd rf) ;;
+    ret (HBlob name sp (fst rf) (fst ra), snd ra)
+  | HEnum name sp variants args =>
+    rf <- copy_fields R variants m ;; ra <- copy_list R args (snd rf) ;;
+    ret (HEnum name sp (fst rf) (fst ra), snd ra)
+  end.
+
 (* fn inner_copy (1645) *)
 Definition copy_body (R : grec) (old : tyid) (m : copymap) : M (tyid * copymap) :=
   old <- find old ;;
@@ -322,22 +341,7 @@ Definition copy_body (R : grec) (old : tyid) (m : copymap) : M (tyid * copymap) 
                       (ncons n) ([], m) ;;
     set_cons new cs ;;;
     t <- find_type old ;;
-    '(t', m) <- (match t with
-                 | HInvalid | HUnknown | HTy | HVoid | HNil | HInt | HFloat | HBool | HStr => ret (t, m)
-                 | HTuple tys => r <- copy_list R tys m ;; ret (HTuple (fst r), snd r)
-                 | HList x => r <- g_copy R x m ;; ret (HList (fst r), snd r)
-                 | HFn args r p =>
-                   ra <- copy_list R args m ;; rr <- g_copy R r (snd ra) ;; ret (HFn (fst ra) (fst rr) p, snd rr)
-                 | HExtBlob name sp fields args ns =>
-                   rf <- copy_fields R fields m ;; ra <- copy_list R args (snd rf) ;;
-                   ret (HExtBlob name sp (fst rf) (fst ra) ns, snd ra)
-                 | HBlob name sp fields args =>
-                   rf <- copy_fields R fields m ;; ra <- copy_list R args (snd rf) ;;
-                   ret (HBlob name sp (fst rf) (fst ra), snd ra)
-                 | HEnum name sp variants args =>
-                   rf <- copy_fields R variants m ;; ra <- copy_list R args (snd rf) ;;
-                   ret (HEnum name sp (fst rf) (fst ra), snd ra)
-                 end) ;;
+    '(t', m) <- copy_ty R t m ;;
     set_type new t' ;;;
     ret (new, m)
   end.
@@ -709,6 +713,7 @@ Section WithVars.
        | ECase to_match branches fall sp =>
          '(ret0, m) <- r_expr R to_match ctx ;;
          add_constraint m CEnum ;;;
+         g_check G sp m ;;;                   (* since 33535f8 *)
          '(r, value, names) <- foldM (case_branch R sp ctx m) branches (ret0, None, []) ;;
          '(r, value) <- (match fall with
                          | Some ft =>
